@@ -39,10 +39,16 @@ def gen_history(rng, maxlen=8):
         r = rng.random()
         if not tests or r < 0.25:
             suf = rng.choice([0, 0, 1, 2])
-            h.append(("add", nextd, suf))
-            tests.append({"uid": uid, "d": nextd, "suf": suf})
+            d = nextd
+            if tests and rng.random() < 0.3:
+                # the same bytes as another test outsources, but with another suffix (str / bytes / .png payloads have equal bytes)
+                other = rng.choice(tests)
+                d, suf = other["d"], rng.choice([x for x in (0, 1, 2) if x != other["suf"]])
+            h.append(("add", d, suf))
+            tests.append({"uid": uid, "d": d, "suf": suf})
             uid += 1
-            nextd += 1
+            if d == nextd:
+                nextd += 1
         elif r < 0.4:
             i = rng.randrange(len(tests))
             # new data, or data another test already uses (shared externals)
@@ -57,6 +63,10 @@ def gen_history(rng, maxlen=8):
             del tests[i]
         else:
             a = {c: rng.random() < 0.55 for c in ("create", "fix", "trim")}
+            if rng.random() < 0.2:
+                # review mode: every question answered alike; unused externals are only removed with the trim FLAG, which review mode lacks
+                yes = rng.random() < 0.5
+                a = {"create": yes, "fix": yes, "trim": False, "review": "y" if yes else "n"}
             h.append(("session", a))
     if h[-1][0] != "session":
         h.append(("session", {"create": True, "fix": True, "trim": rng.random() < 0.5}))
@@ -102,7 +112,10 @@ def run_history(item):
                     known[(sha(t["d"], t["suf"]), SUFFIXES[t["suf"]])] = (t["d"], t["suf"])
                 (d / "test_s.py").write_text(render_tests(tests))
                 flags = [c for c in ("create", "fix", "trim") if step[1][c]]
-                r = driver.run_pytest(d, [f"--inline-snapshot={','.join(flags)}"] if flags else [])
+                if step[1].get("review"):
+                    r = driver.run_pytest(d, ["--inline-snapshot=review"], stdin=(step[1]["review"] + "\n").encode() * 8)
+                else:
+                    r = driver.run_pytest(d, [f"--inline-snapshot={','.join(flags)}"] if flags else [])
                 if r.get("infra_error"):
                     return {"infra": True}
                 if r["rc"] not in (0, 1):
